@@ -190,16 +190,19 @@ CLAIMED['C13'] = dict(
 CLAIMED['C08'] = dict(
     text='Lean 4 model of every rule function of simplify (constant folding with Python int/float semantics over exact rationals, flip by '
          'commutativity / INVERSE_OPERATORS, re-association, iff/implies expansion, and/or unit-idempotence-complement-deduplication, comparison '
-         'folding, arithmetic identities, built-in function folding) tied to the code by output correspondence (0 disagreements on ~4.6k terms per '
-         'run, modulo Python set order). Proved so far: the table obligations the flip and re-association steps need (commutative/associative '
-         'flags are exactly the sound ones — the obligation that the removed ** = != flags violated; inverse table), soundness of the '
-         'obviously-different test (obviouslyDifferent_bool) and of the head rules of _simplify_conjunction/_simplify_disjunction. The full '
-         'statement SimplifySound is stated in Props/C08.lean and not yet proved; until then the unbounded claim rests on these lemmas plus the '
-         'Lean evaluator judging every implementation output on the valuation grid (which found the seven defects now fixed in /repo).',
-    design_ref='DESIGN.md §6 C08',
-    note='PARTIAL: rule lemmas and table obligations are theorems; the induction over the whole term (SimplifySound) is open. Exact rational '
-         'arithmetic; NaN and arithmetic on infinities are errors of the original and constrain nothing; math functions are uninterpreted.',
-    technique='Lean 4 proof of rule lemmas and table obligations (partial) + full model correspondence + spec evaluation of every output')
+         'folding, arithmetic identities, built-in function folding) tied to the code by output correspondence (0 disagreements on ~5k terms per '
+         'run, modulo Python set order). Proved (Props/C08, C08a, C08b, C08c): value-level soundness of every rule function, the table '
+         'obligations the flip and re-association steps need, the re-association step for every operator flagged associative (reassoc_sound), '
+         'set-literal de-duplication (eval_set_dedupe), and THE RECURSION OVER THE WHOLE TERM: soundAt / simplify_sound_of_calls, by induction '
+         'on the fuel of the seven mutually recursive model functions - every result of simplify preserves the value of its input under every '
+         'valuation on which the input evaluates, for terms of any size, given CallFoldSound (soundness of the constant folding of one built-in '
+         'function call), which is a stated hypothesis, not a theorem. Function folding and whole-term meaning are also judged by the Lean '
+         'evaluator on a valuation grid on every implementation output (which found the seven defects now fixed in /repo).',
+    design_ref='DESIGN.md §0.1, §6 C08',
+    note='PARTIAL: SimplifySound is proved conditionally on CallFoldSound (folding of abs/bool/int/float/str/len/sum/prod/max/min/gcd/ceil/floor); '
+         'fuel sufficiency of simpFuel is not proved. Exact rational arithmetic; NaN and arithmetic on infinities are errors of the original and '
+         'constrain nothing; math functions are uninterpreted.',
+    technique='Lean 4 proof by induction over the simplifier recursion (conditional on function-call folding) + full model correspondence + spec evaluation of every output')
 CLAIMED['C14'] = dict(
     text='Lean 4 theorems on result kinds (simplifyPred_kind: predicate in, predicate out, vacuous exactly for literal conditions; '
          'canonical_nonempty; vacuous-predicate cases of refactor) over models in which every assert / unchecked index of rewrite.py is an '
@@ -218,22 +221,27 @@ CLAIMED['C01'] = dict(
          'implementation is judged against the tree each text was rendered from (through the model build, independent of the model parser) and '
          'compared with the model parser on the text itself, over random layouts, minimal/full/redundant parentheses, keyword-like names, '
          'non-canonical numbers and token-level mutations; 0 disagreements with Lark on ~1.5k texts per run including the LALR-merged-lookahead '
-         'corner (`xs[0]!= 3`). Proved so far: keyword recognition is exact-word and boundary-sensitive (isKw_exact). The grammar-level theorems '
-         '(parse_complete / parse_sound / unambiguity, prototyped on a miniature grammar) are not yet ported to the full grammar.',
+         'corner (`xs[0]!= 3`). Proved: keyword recognition is exact-word and boundary-sensitive (isKw_exact); every tree the expression parser can produce is '
+         'produced from the token sequence of its printed form (parse_toks_roundtrip, Props/C06b). The grammar-level theorems (parse_complete / '
+         'parse_sound for minimal and redundant parentheses, unambiguity; prototyped on a miniature grammar) are not ported to the full grammar.',
     design_ref='DESIGN.md §6 C01',
     note='PARTIAL: the relation "text renders tree" is realised by the harness renderer, not yet by a Lean inductive relation with a completeness '
          'proof for the model parser. Lark itself is modelled, not verified.',
     technique='Lean 4 executable parser model + correspondence on rendered trees and mutated texts (proof of the parser partial)')
 CLAIMED['C06'] = dict(
-    text='Lean 4 model of every __str__ (expressions, predicates, events with flat disjunctions, scopes, patterns with ms/s time bounds, '
-         'properties, specifications) compared with the implementation token by token; theorems: a disjunction prints flat whatever its nesting, '
-         'own fields print bare. The round trip itself (str -> parse -> equal AST, equal hash, stable second print, injectivity of printing) is '
+    text='Lean 4 theorem parse_toks_roundtrip (Props/C06b): for every expression tree the parser can produce (Raw.printable, decidable; every '
+         'node kind, any depth) the recursive-descent parser model applied to the token sequence of the printed form (Raw.toks) returns exactly '
+         'that tree and consumes every token, with the fuel the model gives itself (need_le); same inside braces for predicates. Proved by mutual '
+         'structural induction with one lemma per grammar level. The lexer is outside the theorem: on every generated text the driver checks '
+         'that the parser output is printable and that lexing the printed form gives Raw.toks (rtcheck). Lean model of every __str__ '
+         '(expressions, predicates, events with flat disjunctions, scopes, patterns with ms/s time bounds, properties, specifications) compared '
+         'with the implementation; the round trip (str -> parse -> equal AST, equal hash, stable second print, injectivity of printing) is also '
          'decided on the implementation for every node kind, widths up to 4 and 27 time bounds over 18 orders of magnitude. Two defects found '
          'and fixed in /repo (function-call and n-ary disjunction printing).',
-    design_ref='DESIGN.md §6 C06',
-    note='PARTIAL: roundtrip (parse (print e) = e for every e in the image of the parser) is not yet a Lean theorem; it needs parse_complete '
-         'for the fully parenthesised rendering (see C01).',
-    technique='Lean 4 printer model + correspondence + direct round-trip checks on the implementation (proof partial)')
+    design_ref='DESIGN.md §0.1, §6 C06',
+    note='PARTIAL: the theorem is at token level for expressions and predicates; the scanner (text to tokens) and the property / specification '
+         'level round trip are tied by correspondence and direct checks, not proved.',
+    technique='Lean 4 proof of the token-level print/parse round trip by structural induction + printer/lexer correspondence + direct round-trip checks on the implementation')
 CLAIMED['C07'] = dict(
     text='Lean 4 theorems over the model in which every assert / unchecked lookup of hpl.ast is an explicit internal outcome: '
          'build_err_documented (building from ANY untyped tree fails only with TypeError, sanity error or ValueError), '
